@@ -113,6 +113,36 @@ def families(thorough):
         for cut in (1, 5):
             s.append(Case(['select'] * n + ['select'], cut=cut, sym_status=True))
     F['status'] = s
+    # -- COPY IN with chunk sizes on both sides of the 8196-byte forwarding threshold
+    s = []
+    sizes = ['d', 'dbig:8185', 'dbig:8192', 'dbig:9000'] + (['dbig:4000', 'dbig:20000'] if thorough else [])
+    for n in (1, 2, 3):
+        for t in itertools.product(sizes, repeat=n):
+            if n == 3 and not thorough and t.count('d') + t.count('dbig:9000') < 2:
+                continue
+            for end in ('c', 'f'):
+                s.append(Case(['copyin'] + list(t) + [end, 'select'], stop='X'))
+    s.append(Case(['copyin', 'dbig:9000', 'd'], stop='eof'))
+    s.append(Case(['begin', 'copyin', 'd', 'dbig:9000', 'd', 'c', 'commit'], stop='X'))
+    F['copy'] = s
+    # -- the pooler's own commands: never forwarded, answered, and routing what follows (two shards; primary + replica)
+    s = []
+    two_shards = [(0,), (0,)]
+    for t in (["qd:1:SET SHARD TO '", 'select'], ["qd:1:SET SHARD TO '", 'q:SHOW SHARD', 'select', 'select2'], ["qd:2:SET SHARDING KEY TO '", 'select', 'q:SHOW SHARD'],
+              ["qd:1:SET SHARD TO '", 'begin', "q:SET SHARD TO '0'", 'select', 'commit', 'select2'], ['q:set shard to 1;', 'select'], ['q:SET SHARD TO 1', "qd:1:SET SHARD TO '", 'select'],
+              ["qd:1:SET SHARDING KEY TO '", 'begin', 'select', 'select2', 'commit'], ['q:SHOW SHARD', "qd:1:SET SHARD TO '", 'q:SHOW SHARD']):
+        for stop in ('X', 'eof'):
+            s.append(Case(t, stop=stop, shards=two_shards, custom=True))
+    if thorough:
+        for t in (["qd:3:SET SHARDING KEY TO '", 'select'], ["qd:1:SET SHARDING KEY TO '-", 'select'], ["qd:2:SET SHARD TO '", 'select']):
+            s.append(Case(t, stop='X', shards=[(0,), (0,), (0,)], custom=True))
+    for role in ('primary', 'replica', 'any', 'PRIMARY'):
+        for t in (["q:SET SERVER ROLE TO '%s'" % role, 'select'], ["q:SET SERVER ROLE TO '%s'" % role, 'q:SHOW SERVER ROLE', 'begin', 'select', 'commit'],
+                  ["q:SET SERVER ROLE TO '%s'" % role, 'select', "q:SET SERVER ROLE TO 'primary'", 'select2']):
+            s.append(Case(t, stop='X', shards=[(0, 1)], custom=True))
+    for t in (["q:SET PRIMARY READS TO 'on'", 'q:SHOW PRIMARY READS', 'select'], ["q:SET PRIMARY READS TO 'off';", 'select']):
+        s.append(Case(t, stop='X', shards=[(0, 1)], custom=True))
+    F['commands'] = s
     # -- two backends (either may be picked at checkout)
     s = []
     for t in (['begin', 'select', 'commit'], ['begin', 'select', 'select'], ['select', 'select'], ['begin', 'P', 'B', 'E', 'S', 'commit'], ['begin', 'error', 'select'],
@@ -134,6 +164,8 @@ DESCR = {
     'pause': 'PAUSE arriving before the session or while the client is idle before its k-th message, with and without a later RESUME',
     'plugins': 'query parser on, the plugin verdict (allow / deny / intercept) of every parsed statement SYMBOLIC',
     'status': 'statements after each of which the backend reports a SYMBOLIC transaction status (any status PostgreSQL can reach from the previous one)',
+    'copy': 'COPY IN sessions whose CopyData chunks have sizes on both sides of the 8196-byte forwarding threshold (1-3 chunks, CopyDone or CopyFail, then another query)',
+    'commands': 'sessions that use the pooler commands (SET SHARD / SET SHARDING KEY with SYMBOLIC decimal digits, SHOW SHARD, SET SERVER ROLE, SET PRIMARY READS) on a pool of two shards or of a primary and a replica, outside and inside BEGIN',
     'two-backends': 'a pool of two servers (replica+replica, primary+replica): either may be handed out at each checkout',
 }
 
@@ -160,7 +192,7 @@ def handle_obligations(chk, prog, props, fams):
     tasks = []
     for fam in fams:
         cases = F[fam]
-        n = max(1, min(12, len(cases) // (4 if fam in ('status', 'plugins', 'malformed') else 40)))
+        n = max(1, min(12, len(cases) // (4 if fam in ('status', 'plugins', 'malformed', 'commands') else 40)))
         for i in range(n):
             tasks.append((prog, fam, i, n, cases[i::n], set(props)))
     chk.parallel(_run_chunk, tasks)
